@@ -8,10 +8,26 @@ import OfxProofs.Lemmas.AggRound
 namespace Ofx.WF
 open Ofx Ofx.Agg
 
+theorem enumRefOk_enumOk (enums : List (List Str)) : ∀ k, enumRefOk enums k = true → Kind.enumOk enums k = true
+  | .oneOf e, h => by simpa [enumRefOk, Kind.enumOk] using h
+  | .listElem k r, h => by
+    simp only [enumRefOk] at h
+    simp only [Kind.enumOk]
+    exact enumRefOk_enumOk enums k h
+  | .bool, _ => rfl
+  | .string _ _, _ => rfl
+  | .integer _, _ => rfl
+  | .decimal _, _ => rfl
+  | .datetime, _ => rfl
+  | .time, _ => rfl
+  | .sub _, _ => rfl
+  | .listAgg _, _ => rfl
+  | .unsupported, _ => rfl
+
 theorem roundTripOk_clsWF (S : Schema) (c : Cls) (h : roundTripOk S c = true) : ClsWF S c := by
   simp only [roundTripOk, Bool.and_eq_true] at h
-  obtain ⟨⟨⟨hnd, hname⟩, hsub⟩, hlb⟩ := h
-  refine ⟨by simpa [namesOf] using of_decide_eq_true hnd, ?_, ?_, ?_⟩
+  obtain ⟨⟨⟨⟨hnd, henum⟩, hname⟩, hsub⟩, hlb⟩ := h
+  refine ⟨by simpa [namesOf] using of_decide_eq_true hnd, ?_, ?_, ?_, ?_⟩
   · intro a ha
     have := (List.all_eq_true.mp hname) a ha
     simp only [Bool.and_eq_true, beq_iff_eq, Bool.not_eq_true', List.contains_eq_mem,
@@ -28,6 +44,9 @@ theorem roundTripOk_clsWF (S : Schema) (c : Cls) (h : roundTripOk S c = true) : 
       simp only [hc, Bool.and_eq_true, beq_iff_eq, Bool.not_eq_true', List.contains_eq_mem,
         decide_eq_false_iff_not] at hst
       exact ⟨tc, rfl, hst.1.1, hst.1.2, hst.2⟩
+  · intro a ha
+    have := (List.all_eq_true.mp henum) a ha
+    exact enumRefOk_enumOk S.enums a.kind this
   · intro i j q ai aj aq hi hil hij hj hjl hju hq hql
     have hjn : j < c.spec.length := by
       rcases Nat.lt_or_ge j c.spec.length with h | h
